@@ -1,2 +1,315 @@
-/-! line-protocol driver of the Vec family (placeholder until the family is built) -/
-def main : IO Unit := pure ()
+import BumpVerif.Model.Vec
+/-!
+Line-protocol driver of the Vec family: reads the trace written by `bvh_vec` on stdin, replays
+every operation on the slot-machine model (`BumpVerif.Model.Vec`) and prints a `DIFF` line for
+every field (`res`, `len`, `cap`, `ids`, `drops`, `moved`, `bad`) in which model and
+implementation disagree.  Inputs the model cannot know come from the trace: the first id the
+harness hands out in this call (`id0=`), the build profile (`ovf=`, `dbg=`), whether the arena
+refused the call's allocation (`env=allocfail`).
+-/
+open Bump Bump.V
+
+def kv (toks : List String) (key : String) : Option String :=
+  toks.findSome? fun t =>
+    if t.startsWith (key ++ "=") then some (t.drop (key.length + 1)).toString else none
+
+def kvNat (toks : List String) (key : String) : Option Nat := (kv toks key).bind (·.toNat?)
+
+def parseList (s : String) : List Nat :=
+  if s == "-" || s.isEmpty then [] else (s.splitOn ",").filterMap (·.toNat?)
+
+def parseBd (s : String) : Bd :=
+  if s.startsWith "i:" then .inc ((s.drop 2).toString.toNat?.getD 0)
+  else if s.startsWith "x:" then .exc ((s.drop 2).toString.toNat?.getD 0)
+  else .unb
+
+structure DState where
+  planIdx : Nat := 0
+  kind : String := "E"
+  ovf : Bool := true
+  dbg : Bool := true
+  vars : List (Option VS) := []
+  lineNo : Nat := 0
+  lines : Nat := 0
+  diffs : Nat := 0
+  kinds : List (String × Nat) := []
+
+def bumpK (ks : List (String × Nat)) (k : String) : List (String × Nat) :=
+  match ks with
+  | [] => [(k, 1)]
+  | (k', n) :: rest => if k' == k then (k', n + 1) :: rest else (k', n) :: bumpK rest k
+
+def showElem (kind : String) (e : Elem) : String := if kind == "Z" then "z" else s!"{e.id}:{e.val}"
+def showElems (kind : String) (es : List Elem) : String := "[" ++ ",".intercalate (es.map (showElem kind)) ++ "]"
+def showIds (kind : String) (ids : List Nat) : String :=
+  "[" ++ ",".intercalate (ids.map fun i => if kind == "Z" then "z" else toString i) ++ "]"
+
+def getV (vars : List (Option VS)) (j : Nat) : Option VS := (vars[j]?).join
+def setV (vars : List (Option VS)) (j : Nat) (o : Option VS) : List (Option VS) := vars.set j o
+
+def mkElems (id0 : Nat) (vals : List Nat) : List Elem :=
+  (vals.zipIdx).map fun (x, k) => ⟨id0 + k, x⟩
+
+def rOk (r : Option Unit) : String := if r.isSome then "ok" else "panic"
+
+/-- one operation on the model: new variables, effects, result text -/
+def runOp (kind : String) (c : Cfg) (toks : List String) (vars : List (Option VS)) (w : W) :
+    Option (List (Option VS) × W × String) := do
+  let name ← toks.head?
+  let n := fun k => (kvNat toks k).getD 0
+  let j := n "v"
+  let jw := n "w"
+  let xs := parseList ((kv toks "xs").getD "-")
+  let ans : List Bool := match kv toks "ans" with
+    | none => []
+    | some "-" => []
+    | some t => t.toList.map (· == '1')
+  let ppanic := kvNat toks "ppanic"
+  let ipanic := kvNat toks "ipanic"
+  let forget := (kv toks "fin") == some "forget"
+  let id0 := w.nextId
+  let pred : Nat → Elem → Option Bool := fun k _ => if ppanic == some k then none else some (ans.getD k false)
+  let items := fun (es : List Elem) => "items " ++ showElems kind es
+  match name with
+  | "new" => some (setV vars j (some newVec), w, "ok")
+  | "with_cap" =>
+    match withCapacity c (n "n") with
+    | none => some (vars, w, "panic")
+    | some v => some (setV vars j (some v), w, "ok")
+  | "from_iter" | "collect_in" =>
+    let args := mkElems id0 xs
+    let w := { w with nextId := id0 + args.length }
+    match fromIter c (.src ⟨args, n "hint", 0, 0, ipanic⟩) w with
+    | (some v, w) => some (setV vars j (some v), w, "ok")
+    | (none, w) => some (vars, w, "panic")
+  | "vmacro_n" =>
+    let x : Elem := ⟨id0, n "x"⟩
+    let w := { w with nextId := id0 + 1 }
+    match vmacroN c x (n "n") w with
+    | (some v, w, _) => some (setV vars j (some v), w, "ok")
+    | (none, w, _) => some (vars, w, "panic")
+  | "vmacro_list" =>
+    let args := mkElems id0 (xs.take 6)
+    let w := { w with nextId := id0 + args.length }
+    let (v, w) := vmacroList c args newVec w
+    some (setV vars j (some v), w, "ok")
+  | _ =>
+    let v ← getV vars j
+    match name with
+    | "push" =>
+      let (v, w, r) := push c v ⟨id0, n "x"⟩ { w with nextId := id0 + 1 }
+      some (setV vars j (some v), w, rOk r)
+    | "pop" =>
+      let (v, w, r) := pop v w
+      some (setV vars j (some v), w, match r with | some e => "some " ++ showElems kind [e] | none => "none")
+    | "insert" =>
+      let (v, w, r) := insert c v (n "i") ⟨id0, n "x"⟩ { w with nextId := id0 + 1 }
+      some (setV vars j (some v), w, rOk r)
+    | "remove" =>
+      let (v, w, r) := remove c v (n "i") w
+      some (setV vars j (some v), w, match r with | some e => "ok " ++ showElems kind [e] | none => "panic")
+    | "swap_remove" =>
+      let (v, w, r) := swapRemove c v (n "i") w
+      some (setV vars j (some v), w, match r with | some e => "ok " ++ showElems kind [e] | none => "panic")
+    | "truncate" =>
+      let (v, w, r) := truncate c v (n "n") w
+      some (setV vars j (some v), w, rOk r)
+    | "clear" =>
+      let (v, w, r) := clear c v w
+      some (setV vars j (some v), w, rOk r)
+    | "resize" =>
+      let (v, w, r) := resize c v (n "n") ⟨id0, n "x"⟩ { w with nextId := id0 + 1 }
+      some (setV vars j (some v), w, rOk r)
+    | "extend" =>
+      let args := mkElems id0 xs
+      let (v, w, r) := extend c v (.src ⟨args, n "hint", 0, 0, ipanic⟩) { w with nextId := id0 + args.length }
+      some (setV vars j (some v), w, rOk r)
+    | "extend_from_slice" =>
+      let src := mkElems id0 xs
+      let (v, w, r) := extend c v (.cloned src) { w with nextId := id0 + src.length }
+      some (setV vars j (some v), w, rOk r)
+    | "extend_copy" =>
+      let src := mkElems id0 xs
+      let (v, w, r) := extendFromSliceCopy c v src { w with nextId := id0 + src.length }
+      some (setV vars j (some v), w, rOk r)
+    | "extend_slices" =>
+      let xss : List (List Nat) := match kv toks "xss" with
+        | none => []
+        | some "-" => []
+        | some t => (t.splitOn "|").map parseList
+      let (srcs, nid) := xss.foldl (fun (acc : List (List Elem) × Nat) l => (acc.1 ++ [mkElems acc.2 l], acc.2 + l.length)) ([], id0)
+      let (v, w, r) := extendFromSlicesCopy c v srcs { w with nextId := nid }
+      some (setV vars j (some v), w, rOk r)
+    | "append" =>
+      let b ← getV vars jw
+      let (a, b, w, r) := append c v b w
+      some (setV (setV vars j (some a)) jw (some b), w, rOk r)
+    | "split_off" =>
+      match splitOff c v (n "i") w with
+      | (v, some o, w) => some (setV (setV vars j (some v)) jw (some o), w, "ok")
+      | (v, none, w) => some (setV vars j (some v), w, "panic")
+    | "drain" =>
+      let (v, w, r) := drainOp c v (parseBd ((kv toks "s").getD "u")) (parseBd ((kv toks "e").getD "u")) (n "take") (n "back") forget w
+      some (setV vars j (some v), w, match r with | some es => items es | none => "panic")
+    | "splice" =>
+      let args := mkElems id0 xs
+      let (v, w, r) := spliceOp c v (parseBd ((kv toks "s").getD "u")) (parseBd ((kv toks "e").getD "u"))
+        (.src ⟨args, n "hint", 0, 0, ipanic⟩) (n "take") { w with nextId := id0 + args.length }
+      some (setV vars j (some v), w, match r with | some es => items es | none => "panic")
+    | "drain_filter" =>
+      let (v, w, r) := drainFilterOp c v pred (n "take") forget w
+      some (setV vars j (some v), w, match r with | some es => items es | none => "panic")
+    | "retain" =>
+      let (v, w, r) := retain c v pred w
+      some (setV vars j (some v), w, rOk r)
+    | "dedup" =>
+      let (v, w, r) := dedupBy c v (fun _ a b => some (a.val == b.val)) w
+      some (setV vars j (some v), w, rOk r)
+    | "dedup_by" =>
+      let (v, w, r) := dedupBy c v (fun k _ _ => if ppanic == some k then none else some (ans.getD k false)) w
+      some (setV vars j (some v), w, rOk r)
+    | "dedup_by_key" =>
+      let m := max (n "m") 1
+      let (v, w, r) := dedupBy c v (fun k a b =>
+        if ppanic == some (2 * k) || ppanic == some (2 * k + 1) then none else some (a.val % m == b.val % m)) w
+      some (setV vars j (some v), w, rOk r)
+    | "reserve" | "reserve_exact" | "try_reserve" | "try_reserve_exact" =>
+      match reserveOp c v (n "n") (name == "reserve_exact" || name == "try_reserve_exact") with
+      | .ok v => some (setV vars j (some v), w, "ok")
+      | .error _ => some (vars, w, if name.startsWith "try_" then "err" else "panic")
+    | "shrink" =>
+      match shrinkToFit c v with
+      | some v => some (setV vars j (some v), w, "ok")
+      | none => some (vars, w, "panic")
+    | "clone" =>
+      match cloneVec c v w with
+      | (some nv, w) => some (setV vars jw (some nv), w, "ok")
+      | (none, w) => some (vars, w, "panic")
+    | "into_iter" =>
+      let (w, r) := intoIterOp c v (n "take") (n "back") forget w
+      some (setV vars j none, w, match r with | some es => items es | none => "panic")
+    | "into_bump_slice" => some (setV vars j none, w, "slice " ++ showElems kind (intoBumpSlice v))
+    | "into_boxed" =>
+      let (es, w, p) := intoBoxedThenDrop c v w
+      some (setV vars j none, w, if p then "panic" else "slice " ++ showElems kind es)
+    | "drop" =>
+      let (w, p) := dropVec c v w
+      some (setV vars j none, w, if p then "panic" else "ok")
+    | _ => none
+
+def evDrops (evs : List V.Ev) : List Nat := evs.filterMap fun | .drop i => some i | _ => none
+def evMoved (evs : List V.Ev) : List Nat := evs.filterMap fun | .moveOut i => some i | _ => none
+
+def splitSections (line : String) : List String := (line.splitOn " | ").map (·.trimAscii.toString)
+def sectionOf (secs : List String) (tag : String) : String :=
+  match secs.find? (·.startsWith (tag ++ " ")) with
+  | some s => (s.drop (tag.length + 1)).toString
+  | none => ""
+
+/-- `len:cap:[id:val,…]` of the implementation → a model vector (used to resynchronise) -/
+def parseVar (esz : Nat) (s : String) : Option VS :=
+  if s == "-" then none else
+  match s.splitOn ":[" with
+  | [hd, tl] =>
+    match hd.splitOn ":" with
+    | [l, cp] =>
+      let len := l.toNat?.getD 0
+      let cap := cp.toNat?.getD 0
+      let body := (tl.dropEnd 1).toString
+      let elems : List (Option Elem) :=
+        if body.isEmpty then [] else
+        (body.splitOn ",").map fun t =>
+          match t.splitOn ":" with
+          | [a, b] => some ⟨a.toNat?.getD 0, b.toNat?.getD 0⟩
+          | _ => some ⟨0, 0⟩
+      some ⟨if esz = 0 then elems else elems ++ List.replicate (cap - elems.length) none, len, if esz = 0 then 0 else cap⟩
+    | _ => none
+  | _ => none
+
+def varText (kind : String) (c : Cfg) : Option VS → String × String × String
+  | none => ("-", "-", "-")
+  | some v => (toString v.len, toString (capOf c v), showElems kind v.owned)
+
+def implVarText (s : String) : String × String × String :=
+  if s == "-" then ("-", "-", "-") else
+  match s.splitOn ":[" with
+  | [hd, tl] =>
+    match hd.splitOn ":" with
+    | [l, cp] => (l, cp, "[" ++ tl)
+    | _ => ("?", "?", "?")
+  | _ => ("?", "?", "?")
+
+def processLine (st : DState) (line : String) : DState × List String :=
+  let st := { st with lineNo := st.lineNo + 1 }
+  let line := line.trimAscii.toString
+  if line.isEmpty || line.startsWith "#" || line.startsWith "ORACLE" || line.startsWith "SUMMARY" then (st, [])
+  else if line.startsWith "PLAN" then
+    let toks := line.splitOn " "
+    let nv := (kvNat toks "nv").getD 3
+    ({ st with planIdx := (kvNat toks "idx").getD 0, kind := (kv toks "kind").getD "E",
+               ovf := (kv toks "ovf") != some "0", dbg := (kv toks "dbg") != some "0",
+               vars := List.replicate nv none }, [])
+  else
+    let esz := if st.kind == "Z" then 0 else 16
+    let c0 : Cfg := { esz := esz, eal := if st.kind == "Z" then 1 else 8, ovf := st.ovf, dbg := st.dbg,
+                      needsDrop := st.kind != "C", freshClone := st.kind != "C" }
+    let mk := fun (name field m i : String) => s!"DIFF plan={st.planIdx} line={st.lineNo} op={name} field={field} model={m} impl={i}"
+    if line.startsWith "END" then
+      -- every container is dropped, in variable order
+      let toks := line.splitOn " "
+      let w := st.vars.foldl (fun (w : W) o => match o with | some v => (dropVec c0 v w).1 | none => w) ({} : W)
+      let m := showIds st.kind (evDrops w.evs)
+      let i := (kv toks "drops").getD "[]"
+      let ds := if m != i then [mk "end" "drops" m i] else []
+      ({ st with vars := st.vars.map fun _ => none, diffs := st.diffs + ds.length }, ds)
+    else
+      let secs := splitSections line
+      let opToks := (secs.headD "").splitOn " "
+      let name := opToks.headD "?"
+      let iRes := sectionOf secs "RES"
+      let iObs := sectionOf secs "OBS"
+      let obsToks := iObs.splitOn " "
+      if iRes == "skip" || name == "raw" || name == "nb_str" || name == "iowrite" then
+        ({ st with lines := st.lines + 1 }, [])
+      else
+        let c : Cfg := { c0 with clonePanicAt := kvNat opToks "cpanic", dropPanicAt := kvNat opToks "dpanic",
+                                 allocOk := (kv opToks "env") != some "allocfail" }
+        let w0 : W := { nextId := (kvNat opToks "id0").getD 1 }
+        match runOp st.kind c opToks st.vars w0 with
+        | none => ({ st with diffs := st.diffs + 1 }, [mk name "parse" "unparsable-or-dead-variable" "-"])
+        | some (vars', w, mRes) =>
+          let d1 := if mRes != iRes then [mk name "res" mRes iRes] else []
+          let mDrops := showIds st.kind (evDrops w.evs)
+          let mMoved := showIds st.kind (evMoved w.evs)
+          let d2 := if mDrops != (kv obsToks "drops").getD "?" then [mk name "drops" mDrops ((kv obsToks "drops").getD "?")] else []
+          let d3 := if mMoved != (kv obsToks "moved").getD "?" then [mk name "moved" mMoved ((kv obsToks "moved").getD "?")] else []
+          let d4 := if w.bad.isEmpty then [] else [mk name "bad" (w.bad.headD "") "-"]
+          let d5 : List String := (vars'.zipIdx).foldl (fun acc (o, j) =>
+            let (ml, mc, mi) := varText st.kind c o
+            let (il, ic, ii) := implVarText ((kv obsToks s!"v{j}").getD "-")
+            acc ++ (if ml != il then [mk name "len" s!"v{j}:{ml}" s!"v{j}:{il}"] else [])
+                ++ (if mc != ic then [mk name "cap" s!"v{j}:{mc}" s!"v{j}:{ic}"] else [])
+                ++ (if mi != ii then [mk name "ids" s!"v{j}:{mi}" s!"v{j}:{ii}"] else [])) []
+          let ds := d1 ++ d2 ++ d3 ++ d4 ++ d5
+          -- resynchronise on the implementation's state if anything differed
+          let varsNext := if ds.isEmpty then vars' else
+            (vars'.zipIdx).map fun (_, j) =>
+              if st.kind == "Z" then
+                match implVarText ((kv obsToks s!"v{j}").getD "-") with
+                | ("-", _, _) => none
+                | (l, _, _) => let n := l.toNat?.getD 0; some ⟨List.replicate n (some ⟨0, 0⟩), n, 0⟩
+              else parseVar esz ((kv obsToks s!"v{j}").getD "-")
+          let kind := name ++ ":" ++ (mRes.splitOn " ").headD ""
+          ({ st with vars := varsNext, lines := st.lines + 1, diffs := st.diffs + ds.length, kinds := bumpK st.kinds kind }, ds)
+
+partial def loop (h : IO.FS.Stream) (st : DState) : IO DState := do
+  let line ← h.getLine
+  if line.isEmpty then return st
+  let (st', outs) := processLine st line
+  for o in outs do IO.println o
+  loop h st'
+
+def main : IO Unit := do
+  let st ← loop (← IO.getStdin) {}
+  let ks := ",".intercalate (st.kinds.map fun (k, n) => s!"{k}={n}")
+  IO.println s!"DRIVER lines={st.lines} diffs={st.diffs} kinds={ks}"
